@@ -158,6 +158,11 @@ type Conn struct {
 	hdrStatus      int
 	hdrErr         error
 
+	// outBuf holds the frames the read loop wants sent while it is holding a
+	// request's lock. They are queued once the lock has been let go: the write
+	// loop, which takes them off the queue, may be waiting for that lock.
+	outBuf []*FrameHeader
+
 	state    connState
 	closeRef uint32
 
@@ -938,6 +943,20 @@ func (c *Conn) readLoop() {
 // against the connection window and a header block changes the HPACK table
 // whoever it was for.
 func (c *Conn) dispatch(fr *FrameHeader) bool {
+	stop := c.dispatchLocked(fr)
+
+	for i, out := range c.outBuf {
+		c.writeOut(out)
+
+		c.outBuf[i] = nil
+	}
+
+	c.outBuf = c.outBuf[:0]
+
+	return stop
+}
+
+func (c *Conn) dispatchLocked(fr *FrameHeader) bool {
 	id := fr.Stream()
 
 	r, ok := c.loadReq(id)
@@ -1713,7 +1732,8 @@ func (c *Conn) updateWindow(streamID uint32, size int) {
 
 	fr.SetBody(wu)
 
-	c.writeOut(fr)
+	// not writeOut: the caller holds a request's lock (see outBuf)
+	c.outBuf = append(c.outBuf, fr)
 }
 
 // readHeaderFragment decodes one frame's worth of a response header block.
